@@ -159,7 +159,8 @@ def oracle(run: runner.Run, oc: Outcome) -> None:
                     # ... unless every handler selected for this cause is finished anyway (by the records in the view
                     # or by its outcome right now): then the process knows it is done, whatever became of the write
                     sel = [hid_ for hid_, h_ in hspecs.items() if h_['kind'] == want or
-                           (first_sight and h_['kind'] == 'resume' and (want != 'delete' or h_.get('opts', {}).get('deleted')))]
+                           (first_sight and h_['kind'] == 'resume' and want != 'create'   # (creation never mixes with resuming)
+                            and (want != 'delete' or h_.get('opts', {}).get('deleted')))]
                     recs_view = st.records(view)
                     refused = not all(common.finished(recs_view.get(st.key_name(hid_))) or st.key_name(hid_) in final_now
                                       for hid_ in sel)
